@@ -30,6 +30,12 @@ def main():
         for what, d in cases.SURFACE_TIE[:3]:
             if not any(v[0] == what for v in chk.violations):
                 chk.violation(what, d)
+        for what, d in cases.PROCESS_TIE[:2]:
+            if not any(v[0] == what for v in chk.violations):
+                chk.violation(what, d)
+        if cases.PROCESS_STATS["worlds"]:
+            chk.counters["worlds queried once more alone in a fresh process (queries reversed) / queries compared"] = "%d / %d" % (
+                cases.PROCESS_STATS["worlds"], cases.PROCESS_STATS["queries"])
         if cases.MERGE_STATS["surfaces"]:
             chk.counters["depth surfaces whose nodal values were compared with the model's merge (Kernels.merge_values)"] = cases.MERGE_STATS["surfaces"]
     except common.TieError as e:
